@@ -596,11 +596,15 @@ pub fn finish(rep: Report, meta: Meta, started: Instant) -> i32 {
     let mut n_viol = 0u64;
     let mut known_lines = Vec::new();
     let mut viol_lines = Vec::new();
+    // one KNOWN-FINDING line per listed finding that matched, with the matching signatures
+    let mut known_hits: BTreeMap<String, (u64, Vec<String>)> = BTreeMap::new();
     for (_k, (n, v)) in &rep.violations {
         let hit = known.iter().find(|k| k.property == c.property && k.status == "known" && matches(&k.matcher, &v.sig));
         match hit {
             Some(k) => {
-                known_lines.push(format!("KNOWN-FINDING: property={} {} [{} case(s), signature {}]", c.property, k.what, n, v.sig));
+                let e = known_hits.entry(k.what.clone()).or_insert((0, Vec::new()));
+                e.0 += n;
+                e.1.push(v.sig.to_string());
             }
             None => {
                 n_viol += n;
@@ -608,6 +612,9 @@ pub fn finish(rep: Report, meta: Meta, started: Instant) -> i32 {
                 viol_lines.push((path, format!("{} case(s), signature {}: {}", n, v.sig, v.detail)));
             }
         }
+    }
+    for (what, (n, sigs)) in &known_hits {
+        known_lines.push(format!("KNOWN-FINDING: property={} {} [{} case(s) in this run; signatures {}]", c.property, what, n, sigs.join(" ")));
     }
     for l in &known_lines {
         println!("{l}");
